@@ -559,6 +559,25 @@ pub fn run_life(case_in: &J, out: &mut Out, ic_build: bool) {
                     }
                 }
             }
+            // C16: match through a recording document and report every find() the engine made
+            if plan["find"].as_bool().unwrap_or(false) {
+                for (i, dj) in docs_j.iter().enumerate() {
+                    let log = RecLog(std::cell::RefCell::new(vec![]));
+                    let root = match rec_build(dj, vec![], &log) {
+                        Ok(RecVal::Obj(o)) => o,
+                        _ => continue,
+                    };
+                    let m = matches(&obj, &root);
+                    let calls: Vec<J> = log
+                        .0
+                        .borrow()
+                        .iter()
+                        .filter(|(_, meth, _)| *meth == "find")
+                        .map(|(p, _, k)| json!([p.iter().map(|s| cps(s)).collect::<Vec<_>>(), cps(k)]))
+                        .collect();
+                    out.ev(json!({"ev":"finds","obj":me,"d":i,"out":m,"calls":calls}));
+                }
+            }
             // alternative sources that must denote the same (C08 explicit forms, C17 permutations)
             if let Some(alts) = case["alts"].as_array() {
                 for (ai, alt) in alts.iter().enumerate() {
